@@ -14,8 +14,8 @@ from props import c09
 
 ID = "C10"
 MODEL_TARGETS = ["C10/Cases.vo"]
-PROOF_TARGETS = ["C10/Proofs.vo", "C10/Regress.vo"]
-OBLIGATION_FILES = ["C10/Regress.v"]
+PROOF_TARGETS = ["C10/Proofs.vo", "C10/Regress.vo", "C10/Site.vo", "C10/Bridge.vo"]
+OBLIGATION_FILES = ["C10/Regress.v", "C10/Bridge.v"]
 PROPS_FILE = "C10/Props.v"
 SHARD = 80
 PER_CASE_TIMEOUT = 120
@@ -53,6 +53,12 @@ MODELLED = [
 NOT_RUNNABLE = ["fbprophet adapter (_update_X caller): fbprophet is not installed"]
 
 # ------------------------------------------------------------------------------------------------
+
+
+def translate(repo):
+    """regenerate build/coq/C10/Site.v from sktime/forecasting/base/_sktime.py (fail closed)"""
+    from translator import sktimebase_c10
+    return sktimebase_c10.translate(repo)
 
 
 def _build(spec):
@@ -640,7 +646,7 @@ def _shrink(case):
 # model side
 
 CASES_HEADER = """From Coq Require Import ZArith QArith List Bool.
-Require Import SkV.Lib.Base SkV.C09.Model SkV.C10.Model SkV.C10.Cases.
+Require Import SkV.Lib.Base SkV.C09.Model SkV.C10.Model SkV.C10.Comp SkV.C10.Cases.
 Import ListNotations.
 Open Scope Z_scope.
 """
@@ -711,18 +717,37 @@ def _nan(out):
     return False
 
 
+def _comp_in_coq(case):
+    """composites of modelled parts, horizon given at fit, no re-fit in the history: run through
+    coq/C10/Comp.v (the C09 model under the inherited methods)"""
+    spec = case["spec"]
+    return (spec["t"] in ("ens", "pipe", "mux", "stack") and c09._modelled(spec)
+            and case["fh0"] is not None and all(o[0] != "fit" for o in case["ops"]))
+
+
+def _ccomp_inputs(case):
+    return "%s %s %s %s" % (c09._cspec(case["spec"]), _cdata(case["t0"], case["y0"]),
+                            czlist(case["fh0"]), clist([_cop(o) for o in case["ops"]]))
+
+
 def coq_case(case, out):
-    if not _in_coq(case["spec"]) or _nan(out):
+    if _nan(out):
         return None
     snaps = clist(["(%s, %s, %s, %s)" % (_cret(s["ret"]), cz(s["cut"]), c09._cser(s["mem"]),
                                          _cfh(s["fh"])) for s in out["steps"]])
-    return "CHist %s %s" % (_cinputs(case), snaps)
+    if _in_coq(case["spec"]):
+        return "CHist %s %s" % (_cinputs(case), snaps)
+    if _comp_in_coq(case) and all(s["ret"] != "err" for s in out["steps"]):
+        return "CComp %s %s" % (_ccomp_inputs(case), snaps)
+    return None
 
 
 def coq_model_term(case):
-    if not _in_coq(case["spec"]):
-        return "tt"
-    return "c_run %s" % _cinputs(case)
+    if _in_coq(case["spec"]):
+        return "c_run %s" % _cinputs(case)
+    if _comp_in_coq(case):
+        return "kc_run %s" % _ccomp_inputs(case)
+    return "tt"
 
 
 def distribution(cases, results):
